@@ -171,7 +171,7 @@ def run(ctx):
     nprog = 50 if quick else 300
     ctx.rule = ("(dataset, access program) pairs. Dataset: 0..6 written row groups of 1..13 rows (+ fabricated empty and duplicated, i.e. "
                 "structurally equal, descriptors), simple file (opened by path or from an open file object) or hive directory (opened by "
-                "directory or _metadata), 0..2 partition columns, optionally a written index, 0..3 extra columns over 15 dtypes; every frame "
+                "directory or _metadata), 0..2 partition columns, optionally a written index, 0..3 extra columns over 15 dtypes, page size default/64/200 bytes (several data pages per chunk), data page v1/v2; every frame "
                 "carries the injective columns id/u/g. Program: <= 3 handle operations from {slice [a:b:k] with None/negative/out-of-range/zero "
                 "step, integer pick, pickle, copy, deepcopy} then one of to_pandas / iter_row_groups(categories?) / head(n at every "
                 "row-group boundary +-1) / count / len with columns None|subset in any order|repeated|empty|unknown and index "
@@ -214,13 +214,24 @@ def run(ctx):
         ctx.count("row_groups", len(b["rgs"]))
         ctx.count("scheme/open", ds["scheme"] + "/" + ds["open"])
         ctx.count("partition_columns", len(b["pcols"]))
+        ctx.count("page_size/data_page_version", "%s/v%s" % (ds.get("page_size"), ds.get("dpv", 1)))
         ctx.count("empty_row_groups", sum(1 for g in b["rgs"] if g[1] == 0))
         ctx.count("equal_descriptors", len(b["rgs"]) - len(set(g[0] for g in b["rgs"])))
         # standing assumptions of the theorems, checked on this dataset
         dcase = {"ds": ds}
+        if b["hypotheses_violated"]:
+            ctx.fail({"component": "model-hypotheses", "what": "hypothesis"}, dcase,
+                     "a hypothesis of the C06 theorems does not hold on this dataset: " + "; ".join(b["hypotheses_violated"]))
         if any(g[1] != len(g[2]) for g in b["rgs"]):
             ctx.fail({"component": "row-count-metadata", "what": "count"}, dcase,
                      "num_rows of a row group differs from the rows its chunks deliver: %r" % [(g[1], len(g[2])) for g in b["rgs"]])
+        # what was written is what the row groups hold (C01's subject; here it guards the instantiation of `rows`):
+        # without fabricated descriptors the ids of all row groups are 0..N-1, each once; in a simple file in written order
+        n = sum(ds["sizes"])
+        ids = [i for g in b["rgs"] for i in g[2]]
+        if not ds["fab"] and (sorted(ids) != list(range(n)) or (ds["scheme"] == "simple" and ids != list(range(n)))):
+            ctx.fail({"component": "row-group-read", "what": "cells"}, dcase,
+                     "the row groups read one by one do not hold the written rows 0..%d in order: %r" % (n - 1, ids[:40]))
         if b["total"] != b["full_len"]:
             ctx.fail({"component": "read", "terminal": "to_pandas", "what": "count"}, dcase,
                      "sum of num_rows %d but the full read has %d rows" % (b["total"], b["full_len"]))
@@ -260,6 +271,11 @@ def run(ctx):
         # the implementation model against its own specification on concrete inputs (theorem C06_programs, extracted code)
         ctx.correspondence("extracted run ~ extracted spec_run (C06_programs on concrete inputs)", case, mi, ms)
         if known and p["impl"][0] == "fail" and mi[0] == "ok":
+            continue
+        if p["prog"]["rd"][0] == "iter" and p["oracle_rows"] is None:
+            # iteration with no data column: the property claims nothing there (whether frames without columns are yielded or
+            # dropped is not observable through cells); neither the oracle nor this correspondence looks at it
+            ctx.count("iter_without_data_columns_not_compared", 1)
             continue            # the real code raises here (open findings); the model describes the behaviour without the defect
         ctx.correspondence("Read.run ~ ParquetFile access program on the real code", case, R.align(mi, p["impl"]), p["impl"])
     ctx.extra["datasets"] = len(jobs)
